@@ -196,6 +196,67 @@ theorem C02_closed_node_attrs_agree (cfg : Cfg) (fuel ef : Nat) (env : Env) (n :
       | ok _ _ => rw [hs, hl] at h; exact h.elim
       | fail f'' t'' => exact Or.inr ⟨⟨f', s', rfl⟩, ⟨f'', t'', rfl⟩⟩
 
+/-- **an `attr` statement on an EDGE, with closed values and plain attribute names**: as `C02_closed_node_attrs_agree`. Both
+modes look the edge up when an attribute is applied: if it does not exist then, both fail (`UndefinedEdge`); if collecting
+the attributes fails in lazy mode the strict statement fails too; otherwise both succeed with equal graphs or both fail. -/
+theorem C02_closed_edge_attrs_agree (cfg : Cfg) (fuel ef : Nat) (env : Env) (a b : Nat) (dbg : StmtCtx) (attrs : List AttrE)
+    (hc : ClosedAgree.closedAttrs cfg ef attrs) (s : Prog.MSt SRest) (t t' : Prog.MSt LSt)
+    (hg : s.graph = t'.graph) (h1 : s.ps.cancelAt = none) (h2 : t.ps.cancelAt = none) (h3 : t'.ps.cancelAt = none) :
+    (∀ f t1, Prog.run (Lazy.lazyAttrs cfg fuel ef env attrs []) t = .fail f t1 →
+      ∃ f' s', Prog.run (Strict.execAttrs cfg fuel env (.edge a b) attrs) s = .fail f' s') ∧
+    (∀ built t1, Prog.run (Lazy.lazyAttrs cfg fuel ef env attrs []) t = .ok built t1 →
+      (∃ s' t'', Prog.run (Strict.execAttrs cfg fuel env (.edge a b) attrs) s = .ok () s' ∧
+          Prog.run (Lazy.evalEdgeAttrs cfg ef a b dbg built) t' = .ok () t'' ∧ s'.graph = t''.graph) ∨
+      ((∃ f' s', Prog.run (Strict.execAttrs cfg fuel env (.edge a b) attrs) s = .fail f' s') ∧
+       (∃ f'' t'', Prog.run (Lazy.evalEdgeAttrs cfg ef a b dbg built) t' = .fail f'' t''))) := by
+  have h := ClosedAgree.closed_edge_attrs_agree cfg fuel ef env a b dbg attrs hc s t t' hg h1 h2 h3
+  constructor
+  · intro f t1 hr
+    rw [hr] at h
+    dsimp only at h
+    cases hs : Prog.run (Strict.execAttrs cfg fuel env (.edge a b) attrs) s with
+    | ok _ _ => rw [hs] at h; exact h.elim
+    | fail f' s' => exact ⟨f', s', rfl⟩
+  · intro built t1 hr
+    rw [hr] at h
+    dsimp only at h
+    cases hs : Prog.run (Strict.execAttrs cfg fuel env (.edge a b) attrs) s with
+    | ok u s' =>
+      cases hl : Prog.run (Lazy.evalEdgeAttrs cfg ef a b dbg built) t' with
+      | ok u' t'' =>
+        rw [hs, hl] at h
+        cases u; cases u'
+        exact Or.inl ⟨s', t'', rfl, rfl, h.1⟩
+      | fail _ _ => rw [hs, hl] at h; exact h.elim
+    | fail f' s' =>
+      cases hl : Prog.run (Lazy.evalEdgeAttrs cfg ef a b dbg built) t' with
+      | ok _ _ => rw [hs, hl] at h; exact h.elim
+      | fail f'' t'' => exact Or.inr ⟨⟨f', s', rfl⟩, ⟨f'', t'', rfl⟩⟩
+
+/-- **condition lists agree.** `if c1, c2, … { … }` evaluates every condition of the list (no short-circuit) in both modes;
+when the conditions test closed expressions the conjunction is the same boolean in both modes — the same `if` / `elif` arm
+is taken — or both modes fail. -/
+theorem C02_closed_condition_lists_agree (cfg : Cfg) (fuel ef : Nat) (env : Env) (cs : List Cond)
+    (hc : ∀ c ∈ cs, ClosedAgree.closedE (ClosedAgree.condExpr c) = true ∧ ClosedAgree.depthE (ClosedAgree.condExpr c) < ef)
+    (s : Prog.MSt SRest) (t : Prog.MSt LSt) (hg : s.graph = t.graph) (h1 : s.ps.cancelAt = none) (h2 : t.ps.cancelAt = none) :
+    match Prog.run (Strict.testConds cfg fuel env cs) s, Prog.run (Lazy.testCondsL cfg fuel ef env cs) t with
+    | .ok b s', .ok b' t' => b = b' ∧ s'.graph = t'.graph ∧ s'.rest = s.rest ∧ t'.rest = t.rest
+    | .fail _ _, .fail _ _ => True
+    | _, _ => False := by
+  have h := ClosedAgree.closed_conds_agree cfg fuel ef env cs hc s t hg h1 h2
+  cases hr1 : Prog.run (Strict.testConds cfg fuel env cs) s with
+  | ok v s' =>
+    cases hr2 : Prog.run (Lazy.testCondsL cfg fuel ef env cs) t with
+    | ok v' t' =>
+      rw [hr1, hr2] at h
+      obtain ⟨a, b, c, d, _, _⟩ := (ClosedAgree.agree_ok_ok ..).mp h
+      exact ⟨a, b, c, d⟩
+    | fail _ _ => rw [hr1, hr2] at h; exact (ClosedAgree.agree_ok_fail _ _ _ _ _ _ h).elim
+  | fail _ _ =>
+    cases hr2 : Prog.run (Lazy.testCondsL cfg fuel ef env cs) t with
+    | ok v' t' => rw [hr1, hr2] at h; exact (ClosedAgree.agree_fail_ok _ _ _ _ _ _ h).elim
+    | fail _ _ => trivial
+
 /-- non-vacuity: a nested closed expression with a call that creates a graph node, and enough fuel for it -/
 example : ClosedAgree.closedE (.list [.call "node" [], .set [.int 1, .str "a"], .regexCap 0]) = true ∧
     ClosedAgree.depthE (.list [.call "node" [], .set [.int 1, .str "a"], .regexCap 0]) < 3 := by decide
